@@ -57,9 +57,6 @@ PosixRs(n) ==
 \* every other category, script or property is taken as written
 CatIn(n, c, ic) == IF ic /\ n \in {"Lu", "Ll", "Lt"} THEN InU("Lu", c) \/ InU("Ll", c) \/ InU("Lt", c) ELSE InU(n, c)
 
-\* the runes whose presence in a range part puts c into its IgnoreCase closure
-FoldSet(c) == Orbit(c) \cup (IF c = 105 \/ c = 73 THEN {304} ELSE {})
-
 RECURSIVE InClass(_,_,_,_)
 InClass(c, cls, ic, dia) ==
   LET F == IF ic THEN FoldSet(c) ELSE {c}
